@@ -295,4 +295,8 @@ class C02(Check):
         return None
 
 
+    def bounded_stand_in(self, tier, undecided):
+        from checks import native
+        return native.stand_in(['C06.'], tier, undecided)
+
 CHECK = C02()
